@@ -344,6 +344,7 @@ def run_r3_r4(repo: Repo, res: Result) -> None:
                 rv = it.obj(("input", "violations"), viol, "input")
                 for f in fields:
                     c = it.coll(("input", f), "input", V(Tup((V(Sc(roles=ROLE_S, srcs=frozenset({f}))), V(Sc(roles=ROLE_O, srcs=frozenset({f})))), "input")))
+                    it.cell(c).order = ("unsorted",)  # the buckets are sets
                     it.set_field(rv, f, V(c), True)
                 args = [V(rv) if _mentions_class(_ann(T, entry, p), viol.fq) else V(Opaque(p.arg)) for p in entry.params[1:]]
                 try:
